@@ -50,72 +50,7 @@ func checkC04(c *Ctx) (string, []string) {
 		c.Check(okRet, "C04.charge-amount", "PVM.chargeGasAndCheck · results", f.Pos(), "ExitOOG exactly on the negative edge, nil otherwise", "results do not map gas<0 to ExitOOG and gas>=0 to nil")
 	}
 
-	c.Rule("C04.engine-step", "in both engines every instruction dispatch is dominated by the false edge of Gas < 1 and by exactly one Gas -= 1 since the previous dispatch; ExitOOG is returned only on the true edge of Gas < 1; no other store to Gas", 8)
-	for _, name := range []string{"Interpreter.SingleStepStateTransition", "Interpreter.SingleStepInvokeDecodedBlocks"} {
-		f := c.Fn("PVM", name)
-		if f == nil {
-			continue
-		}
-		key := "PVM." + name
-		gasField := c.Field("PVM", "Interpreter.Gas")
-		isGasStore := func(in ssa.Instruction) bool {
-			st, ok := in.(*ssa.Store)
-			if !ok {
-				return false
-			}
-			fa, ok := st.Addr.(*ssa.FieldAddr)
-			return ok && structField(fa.X.Type(), fa.Field) == gasField
-		}
-		isDispatch := func(in ssa.Instruction) bool {
-			call, ok := in.(*ssa.Call)
-			if !ok || call.Call.IsInvoke() || call.Call.StaticCallee() != nil {
-				return false
-			}
-			if _, isB := call.Call.Value.(*ssa.Builtin); isB {
-				return false
-			}
-			// a call of a function value taking the interpreter
-			return len(call.Call.Args) >= 1 && strings.Contains(types.TypeString(call.Call.Args[0].Type(), nil), "Interpreter")
-		}
-		low := condEdges(f, func(v ssa.Value) (bool, bool) { return exprStr(v, shapeOpts) == "(p0.Gas < 1)", true })
-		notLow := make([]edge, len(low))
-		for i, ed := range low {
-			notLow[i] = edge{ed.from, 1 - ed.succ}
-		}
-		nd := 0
-		allInstrs(f, func(in ssa.Instruction) {
-			switch {
-			case isGasStore(in):
-				s := exprStr(in.(*ssa.Store).Val, shapeOpts)
-				c.Check(s == "(p0.Gas - 1)", "C04.engine-step", key+" · gas store", in.Pos(), "Gas ← Gas - 1", "engine stores "+s+" into Gas, expected Gas - 1")
-				c.Check(guardedBy(f, in, notLow), "C04.engine-step", key+" · decrement after test", in.Pos(), "decrement only after Gas >= 1 was established", "gas decremented without the Gas < 1 test")
-			case isDispatch(in):
-				nd++
-				c.Check(guardedBy(f, in, notLow), "C04.engine-step", key+" · dispatch guarded", in.Pos(), "dispatch only on the Gas >= 1 edge", "an instruction can be dispatched without passing the Gas < 1 test")
-				// a decrement between the (last) test edge and the dispatch, on every path
-				_, skip := findPath(pathQuery{startEdges: notLow, target: func(x ssa.Instruction) bool { return x == in }, blocker: isGasStore})
-				c.Check(!skip, "C04.engine-step", key+" · charged before dispatch", in.Pos(), "every path from the gas test to the dispatch decrements Gas", "an instruction can be dispatched without being charged")
-				// at most one decrement between test and dispatch
-				double := false
-				allInstrs(f, func(s1 ssa.Instruction) {
-					if !isGasStore(s1) {
-						return
-					}
-					if _, again := findPath(pathQuery{start: s1, target: isGasStore, blocker: isDispatch}); again {
-						double = true
-					}
-				})
-				c.Check(!double, "C04.engine-step", key+" · single charge", in.Pos(), "one decrement per dispatch", "gas can be decremented twice before one dispatch")
-			}
-			if r, ok := in.(*ssa.Return); ok {
-				res := retResults(r)
-				if len(res) > 0 && exprStr(res[0], exprOpts{}) == c.constStr("PVM", "ExitOOG") {
-					c.Check(guardedBy(f, in, low), "C04.engine-step", key+" · OOG exit", in.Pos(), "ExitOOG only when Gas < 1", "engine returns out-of-gas on a path that did not find Gas < 1")
-				}
-			}
-		})
-		c.Check(nd >= 1, "C04.engine-step", key+" · dispatch found", f.Pos(), fmt.Sprintf("%d dispatch site(s)", nd), "no instruction dispatch found in the engine")
-	}
+	ruleEngineStep(c, "C04.engine-step")
 
 	c.Rule("C04.gas-writers", "every store to a gas cell in package PVM is one of: engine Gas-1, chargeGasAndCheck Gas-10, transfer's Gas-Gas(l) guarded by the unsigned test uint64(Gas) < l (else Gas=0 and out-of-gas), the legacy block executor's Gas-1, or construction", 4)
 	gasT := c.Obj("PVM", "Gas")
@@ -215,4 +150,75 @@ func checkC04(c *Ctx) (string, []string) {
 	}
 	return "Gas metering mechanisms decided on SSA: charge-first for all host calls, the exact charge (10) and its out-of-gas test, one-unit-per-dispatch in both engines (test → decrement → dispatch on every path, ExitOOG only on the Gas<1 edge), the closed set of gas writers with their value shapes and transfer's unsigned affordability test, the reported-usage formula of R and its use in Psi_M, and the unsigned→signed limit conversions. Does not decide per-host-call charge tables beyond 10+transfer, nor run any program.",
 		[]string{"function-value calls that receive the Interpreter are instruction dispatches", "canonical expression rendering"}
+}
+
+// ruleEngineStep: one unit of gas per dispatched instruction in both engines.
+func ruleEngineStep(c *Ctx, rule string) {
+	c.Rule(rule, "in both engines every instruction dispatch is dominated by the false edge of Gas < 1 and by exactly one Gas -= 1 since the previous dispatch; ExitOOG is returned only on the true edge of Gas < 1; no other store to Gas", 8)
+	for _, name := range []string{"Interpreter.SingleStepStateTransition", "Interpreter.SingleStepInvokeDecodedBlocks"} {
+		f := c.Fn("PVM", name)
+		if f == nil {
+			continue
+		}
+		key := "PVM." + name
+		gasField := c.Field("PVM", "Interpreter.Gas")
+		isGasStore := func(in ssa.Instruction) bool {
+			st, ok := in.(*ssa.Store)
+			if !ok {
+				return false
+			}
+			fa, ok := st.Addr.(*ssa.FieldAddr)
+			return ok && structField(fa.X.Type(), fa.Field) == gasField
+		}
+		isDispatch := func(in ssa.Instruction) bool {
+			call, ok := in.(*ssa.Call)
+			if !ok || call.Call.IsInvoke() || call.Call.StaticCallee() != nil {
+				return false
+			}
+			if _, isB := call.Call.Value.(*ssa.Builtin); isB {
+				return false
+			}
+			// a call of a function value taking the interpreter
+			return len(call.Call.Args) >= 1 && strings.Contains(types.TypeString(call.Call.Args[0].Type(), nil), "Interpreter")
+		}
+		low := condEdges(f, func(v ssa.Value) (bool, bool) { return exprStr(v, shapeOpts) == "(p0.Gas < 1)", true })
+		notLow := make([]edge, len(low))
+		for i, ed := range low {
+			notLow[i] = edge{ed.from, 1 - ed.succ}
+		}
+		nd := 0
+		allInstrs(f, func(in ssa.Instruction) {
+			switch {
+			case isGasStore(in):
+				s := exprStr(in.(*ssa.Store).Val, shapeOpts)
+				c.Check(s == "(p0.Gas - 1)", rule, key+" · gas store", in.Pos(), "Gas ← Gas - 1", "engine stores "+s+" into Gas, expected Gas - 1")
+				c.Check(guardedBy(f, in, notLow), rule, key+" · decrement after test", in.Pos(), "decrement only after Gas >= 1 was established", "gas decremented without the Gas < 1 test")
+			case isDispatch(in):
+				nd++
+				c.Check(guardedBy(f, in, notLow), rule, key+" · dispatch guarded", in.Pos(), "dispatch only on the Gas >= 1 edge", "an instruction can be dispatched without passing the Gas < 1 test")
+				// a decrement between the (last) test edge and the dispatch, on every path
+				_, skip := findPath(pathQuery{startEdges: notLow, target: func(x ssa.Instruction) bool { return x == in }, blocker: isGasStore})
+				c.Check(!skip, rule, key+" · charged before dispatch", in.Pos(), "every path from the gas test to the dispatch decrements Gas", "an instruction can be dispatched without being charged")
+				// at most one decrement between test and dispatch
+				double := false
+				allInstrs(f, func(s1 ssa.Instruction) {
+					if !isGasStore(s1) {
+						return
+					}
+					if _, again := findPath(pathQuery{start: s1, target: isGasStore, blocker: isDispatch}); again {
+						double = true
+					}
+				})
+				c.Check(!double, rule, key+" · single charge", in.Pos(), "one decrement per dispatch", "gas can be decremented twice before one dispatch")
+			}
+			if r, ok := in.(*ssa.Return); ok {
+				res := retResults(r)
+				if len(res) > 0 && exprStr(res[0], exprOpts{}) == c.constStr("PVM", "ExitOOG") {
+					c.Check(guardedBy(f, in, low), rule, key+" · OOG exit", in.Pos(), "ExitOOG only when Gas < 1", "engine returns out-of-gas on a path that did not find Gas < 1")
+				}
+			}
+		})
+		c.Check(nd >= 1, rule, key+" · dispatch found", f.Pos(), fmt.Sprintf("%d dispatch site(s)", nd), "no instruction dispatch found in the engine")
+	}
+
 }
